@@ -24,9 +24,15 @@ const (
 	EIntr     // syscall.EINTR: Temporary() is true
 	EDeadline // os.ErrDeadlineExceeded: Timeout() and Temporary() are true
 	nErrKinds
+	// EPanic is not an error kind: the reader PANICS at the fault offset (a
+	// caller-supplied reader with a bug; the caller recovers). Only the
+	// concurrent engine draws it: what later calls do afterwards is the point.
+	EPanic = nErrKinds
 )
 
-var errKindNames = []string{"", "err_eof", "err_unexpected_eof", "err_sentinel", "err_eagain", "err_eintr", "err_deadline"}
+const devPanicMsg = "simdev: injected panic inside Read"
+
+var errKindNames = []string{"", "err_eof", "err_unexpected_eof", "err_sentinel", "err_eagain", "err_eintr", "err_deadline", "reader_panic"}
 
 func devErr(k int) error {
 	switch k {
@@ -249,6 +255,15 @@ func (d *Device) Read(p []byte) (int, error) {
 		k := d.plan.FailKind
 		if k == 0 {
 			k = ESentinel
+		}
+		if k == EPanic {
+			d.fired = true
+			d.sticky = ESentinel
+			d.log.ErrKind = k
+			d.log.ErrAtByte = d.log.Delivered
+			d.log.ErrWith = n > 0
+			d.log.Gave = append(d.log.Gave, n)
+			panic(devPanicMsg)
 		}
 		if n == 0 || d.plan.FailWith {
 			d.fired = true
